@@ -47,7 +47,16 @@ def _ma_eval(c: list[float], a: tuple) -> Any:
     return r
 
 
-_EVAL = {"poly": _poly_eval, "rat": _rat_eval, "ma": _ma_eval}
+def _sq_eval(c: list[float], a: tuple) -> Any:
+    # c[0] + sum c[1+i] * a_i^2 : sign-definite when all coefficients share a sign
+    a = tuple(_sc(x) for x in a)
+    r = c[0]
+    for i, x in enumerate(a):
+        r = r + c[1 + i] * x * x
+    return r
+
+
+_EVAL = {"poly": _poly_eval, "rat": _rat_eval, "ma": _ma_eval, "sq": _sq_eval}
 
 
 def _fix_arity(n: int, g: Callable[..., Any]) -> Callable[..., Any]:
@@ -101,4 +110,6 @@ def evaluate(fd: dict, args: list) -> Any:
 def ncoef(kind: str, n: int) -> int:
     if kind == "ma":
         return 1
+    if kind == "sq":
+        return n + 1
     return n + 2
